@@ -30,6 +30,8 @@ type caseSpec struct {
 	tzOff  int  // context zone: fixed offset seconds (0 = UTC)
 	cancel bool // run the cancellation sweep
 	note   string
+	group  string // cases related by a property (C09, C10, C11): group id and role
+	role   string
 }
 
 type emitter struct {
@@ -138,9 +140,13 @@ func (e *emitter) emit(cs caseSpec) {
 		return false
 	}())
 	w := e.w
-	fmt.Fprintf(w, "(case %d %s (text %s) %s (doc %s) %s (usetz %v) (tz %d) (unordered %v) %s (replay %s) (runs",
+	fmt.Fprintf(w, "(case %d %s (text %s) %s (doc %s) %s (usetz %v) (tz %d) (unordered %v) %s (replay %s)",
 		e.id, cs.family, qs(cs.text), pathDump, jsonS(cs.doc), varsS(cs.vars), cs.useTZ, cs.tzOff, unordered,
 		regexTable(p.AST, cs.doc, cs.vars), qs(replayLine(cs)))
+	if cs.group != "" {
+		fmt.Fprintf(w, " (group %s %s)", qs(cs.group), qs(cs.role))
+	}
+	fmt.Fprintf(w, " (runs")
 
 	snapshot := jsonS(cs.doc) + varsS(cs.vars)
 	oneRun := func(silent bool, k int, cause error) int {
